@@ -1536,3 +1536,52 @@ def mon_C20(rng, budget, tier):
 
 
 MONITORS = {k[4:]: v for k, v in list(globals().items()) if k.startswith("mon_C")}
+
+
+# =====================================================================================================
+# C01  the published closed form, evaluated independently (index sums over the unsorted game)
+def mon_C01(rng, budget, tier):
+    from . import spec
+    mon = Mon("C01")
+    i = 0
+    while mon.evaluations < budget and not mon.full:
+        kind = KINDS[i % 5]
+        i += 1
+        c = _valid_rate_case(rng, kind=kind)
+        teams, ranks, scores, tau, lim = c["args"]
+        if tau[0] == "B":
+            tau = c["args"][3] = OMIT
+        st = c["st"]
+        nums = [[(float(mu), float(sg)) for mu, sg in t] for t in nums_of(teams)]
+        keys = order_vals(ranks, scores)
+        case = {"kind": kind, "st": st, "nums": nums, "ranks": ranks, "scores": scores, "tau": tau, "lim": lim}
+        mon.case(case, gen.nontrivial_rate(c))
+        got = rate_nums(kind, st, nums, ranks=ranks, scores=scores, tau=tau, lim=lim)
+        t_eff, l_eff = eff_tau(st, tau), eff_limit(st, lim)
+        infl = _inflated(nums, t_eff)
+        srel = _tm_tie_sigma_rel(kind, st, infl, keys)
+        want = spec.wl_update(kind, st, nums, keys, t_eff, l_eff, tm_part_factor=2.0 if kind == "TMP" else 1.0)
+        bad = _spec_diff(kind, st, infl, keys, got, want, srel)
+        if bad:
+            mon.fail("posterior equals the closed-form update", case, bad)
+        elif kind == "TMP":
+            alg3 = spec.wl_update(kind, st, nums, keys, t_eff, l_eff, tm_part_factor=1.0)
+            if _spec_diff(kind, st, infl, keys, got, alg3, srel):
+                mon.count("K1: TMP equals Algorithm 3 only with c_iq doubled")
+    return mon
+
+
+def _spec_diff(kind, st, infl, keys, got, want, srel):
+    for t in range(len(want)):
+        if len(got[t]) != len(want[t]):
+            return "team %d has %d players in the result" % (t, len(got[t]))
+        for j in range(len(want[t])):
+            a, b = got[t][j], want[t][j]
+            sc = max(abs(b[0]), infl[t][j][1])
+            allow = _tm_tie_mu_allow(kind, st, infl, keys, t, j)
+            if not (_close_mu(a[0], b[0], sc) or abs(a[0] - b[0]) <= allow) or not _close_rel(a[1], b[1], srel):
+                return "player [%d][%d]: rate returned %s, closed form gives %s" % (t, j, a, b)
+    return None
+
+
+MONITORS = {k[4:]: v for k, v in list(globals().items()) if k.startswith("mon_C")}
